@@ -73,7 +73,7 @@ def case_strategy(draw):
              mob.tolist()]
     return {"fixed": fixed.tolist(), "built_with": mob.tolist(), "restr": restr, "rkind": kind,
             "layout": layout, "evals": evals, "seed": draw(gen.SEEDS),
-            "as_tuples": draw(st.booleans()),
+            "as_tuples": draw(st.booleans()), "reuse_restr": draw(st.integers(0, 3)) == 0,
             "mem": [draw(st.sampled_from(gen.ARRAY_LAYOUTS)) for _ in range(5)]}
 
 
@@ -107,6 +107,14 @@ def check(case):
     restr = [tuple(r) for r in case["restr"]] if case["as_tuples"] else [list(r) for r in case["restr"]]
     rlist = [tuple(r) for r in case["restr"]]
     fixed_snapshot = fixed.copy()
+    if restr and case.get("reuse_restr"):
+        # the caller keeps ONE restraint list and edits it in place between two calculators
+        real = list(restr)
+        del restr[:]
+        restr.extend([real[0]] * 2 if case["seed"] % 2 else real[: max(1, len(real) // 2)])
+        lib("construct-prior", gaddlemaps.Chi2Calculator, fixed, built, restr)
+        del restr[:]
+        restr.extend(real)
     calc = lib("construct", gaddlemaps.Chi2Calculator, fixed, built, restr if restr else None)
     ks = []
     any_tie = False
